@@ -441,7 +441,7 @@ func (g gen) random(stream string, bigOK bool) tcase {
 	case 0:
 		n = 1 + g.intn(3)
 	case 1:
-		if bigOK && s != strategy.Auto && s != strategy.Global {
+		if bigOK { // long tables: pdqsort for the sort-based strategies, deeper heaps for AUTO/GLOBAL
 			n = 13 + g.intn(30)
 		}
 	}
@@ -576,7 +576,7 @@ func TestStrategy(t *testing.T) {
 	}
 	r.Finish("corpus (defect witnesses, empty/singleton/unlimited tables, the repository's test tables, tie tables) " +
 		"then 40% boundary-of-feasibility cases (need = feasibility threshold -1/0/+1), 50% random tables " +
-		"(1-12 nodes, 1/12 with 13-42 nodes for the sort-based strategies; capacities {1,2,3,small,MaxInt}, counts 0-6, " +
+		"(1-12 nodes, 1/12 with 13-42 nodes; capacities {1,2,3,small,MaxInt}, counts 0-6, " +
 		"need 1-40, limit 0-5, dyadic/decimal/last-bit-perturbed floats, tie-heavy), 10% malformed (unknown strategy, " +
 		"count<=0, negative limit, duplicate names, zero/negative capacity, negative count, NaN/Inf, huge need); " +
 		"non-trivial = valid-stream case with >= 2 candidates not rejected by the first guard (strategy name, count, total<need). " +
